@@ -428,6 +428,14 @@ def prim_names(x, acc=None):
     for y in kids(x): prim_names(y, acc)
   return acc
 
+def all_prims(x, acc=None):
+  """The primitive sub-expressions (Prim nodes) of an expression."""
+  acc = [] if acc is None else acc
+  if x[0] == 0: acc.append(x)
+  else:
+    for y in kids(x): all_prims(y, acc)
+  return acc
+
 def kids(x):
   t = x[0]
   if t in (2, 3, 4, 5, 6, 7): return [x[1], x[2]]
@@ -586,6 +594,20 @@ def C(k, cands, dist, srt, loc):
   return ('C', k, cands, dist, srt, (loc,), None, ())
 E = ('S', [])
 
+def sparse_specs(nmax):
+  """Sparse constrained multi-choices (n in {2k, 2k+1, 3k} candidates for k sub-choices) beside the dense ones of mode_specs
+  (n in {k, k+1}): distinct, sorted or both; at top level and inside a conditional sub-space.  Up to nmax candidates."""
+  out = []
+  for k in (2, 3, 4):
+    for n in sorted({2 * k, 2 * k + 1, 3 * k}):
+      if n > nmax: continue
+      for dist, srt in ((True, False), (True, True), (False, True)):
+        m = C(k, [E] * n, dist, srt, 'm')
+        out.append(('S', [m]))
+        out.append(('S', [C(1, [('S', [m]), E, ('S', [C(k, [E] * n, dist, srt, 'w'), ('F', 0.0, 2.0, ('g',), None)])], False, False, 'o'),
+                          C(1, [E, E], False, False, 'q')]))
+  return out
+
 def mode_specs():
   """Systematic sweep: every distinct/sorted mode x k x conditional shapes (multi-choice at top level, as the only
   element of a candidate (folded), beside another element, under a multi-choice, with float leaves)."""
@@ -603,6 +625,7 @@ def mode_specs():
         out.append(('S', [m(cond), C(1, [E, E], False, False, 'q')]))
         out.append(('S', [C(1, [('S', [m(plain)]), E, ('S', [m(cond), ('F', -1.0, 1.0, ('g',), None)])], False, False, 'o')]))
         out.append(('S', [m([('S', [C(2, [E, E, E], dist, srt, 'i')])] + plain[1:]), ('F', 0.0, 2.0, ('h',), None)]))
+  out += sparse_specs(8)
   out.append(('S', []))
   # custom decision points (no random_dna_fn: Uniform mutation of such a node raises NotImplementedError; recombinators carry the strings)
   X = lambda loc: ('X', (loc,), None)
@@ -866,6 +889,30 @@ def run(ctx):
   ctx.extra['evolution_loop_cases'] = evolution_loop_sweep(ctx, rng, ctx.scale(60, 600))
   ctx.extra['nsga2_operator_cases'] = nsga2_sweep(ctx, rng, ctx.scale(150, 2000))
   ctx.extra['systematic_sweep'] = dict(mode_specs=len(mode_specs()), selectors=len(sels), mutators=len(muts), pointwise=len(recs), two_parent=len(recs2))
+  # chained closure search, always on (small budget): sparse and dense constrained multi-choices, also beyond the model's 8 candidates
+  chain_specs = [s for s in sparse_specs(12) if len(s[1]) == 1] + [('S', [C(2, [E] * 3, True, False, 'm')]), ('S', [C(3, [E] * 3, True, True, 'm')])]
+  chain_search(ctx, rng, chain_specs, CHAIN_OPS[:2], ctx.scale(2, 24), ctx.scale(25, 60), 'always/mutators')
+  chain_search(ctx, rng, rng.sample(chain_specs, ctx.scale(6, len(chain_specs))), CHAIN_OPS[2:], ctx.scale(1, 8), ctx.scale(15, 40), 'always/recombinators')
+  # targeted: when the correspondence of a randomised operator broke and nothing failed yet, chain the operators of the
+  # disagreeing cases on their own specifications (and on the sparse family) over many seeds and generations
+  if ctx.is_broken() and not ctx.hits and bad:
+    import time
+    targets, seen_t = [], set()
+    for i in bad:
+      d = descr[i]
+      for e in [x for x in all_prims(d['expr']) if x[1][0] in (1, 2)]:
+        key = (repr(d['spec']), repr(e))
+        if key not in seen_t and len(targets) < 12:
+          seen_t.add(key); targets.append((d['spec'], e))
+    t_end = time.time() + ctx.scale(45, 600)
+    for sp, e in targets:
+      if time.time() > t_end or ctx.hits: break
+      chain_search(ctx, rng, [sp], [e], ctx.scale(24, 64), ctx.scale(40, 60), 'targeted/own-spec')
+    ops_t = []
+    for _, e in targets:
+      if repr(e) not in [repr(x) for x in ops_t]: ops_t.append(e)
+    if not ctx.hits and time.time() < t_end:
+      chain_search(ctx, rng, chain_specs, ops_t[:3], ctx.scale(8, 64), ctx.scale(40, 60), 'targeted/sparse-family')
   # violation search on the disagreeing cases first (the oracle has already run on every case)
   if ctx.is_broken() and not ctx.hits:
     for i in bad[:50]:
@@ -1033,6 +1080,85 @@ def evolution_loop_sweep(ctx, rng, n):
     for sig, what in hits:
       ctx.hit(sig, what, j)
   return len(jobs)
+
+def chain_job(j):
+  """Chained closure search: the operator applied generation after generation to its own children (mutators: one lineage;
+  recombinators: a population of 4), every step run and judged exactly like an ordinary case, so that a failing step IS a
+  replayable case (specification, parents of that step, seed of that step)."""
+  rng = pyrandom.Random(j['seed'])
+  s, expr = j['spec'], j['expr']
+  two = expr[0] == 0 and expr[1][0] == 2 and expr[1][1][0] != 0
+  is_mut = expr[0] == 0 and expr[1][0] == 1
+  pop = [['d', i, rand_sdna(rng, s, None), rng.randint(0, 8) / 4.0] for i in range(1 if is_mut else 4)]
+  steps = 0
+  for g in range(j['gens']):
+    if is_mut: parents = pop
+    else:
+      idx = rng.sample(range(len(pop)), 2) if two else rng.sample(range(len(pop)), rng.choice([2, 2, 3]))
+      parents = [['d', n, pop[i][2], pop[i][3]] for n, i in enumerate(idx)]
+    seed = j['seed'] * 1000003 + g
+    try:
+      res = impl_run(s, expr, parents, seed)
+      hits = oracle(s, expr, parents, seed, res=res, determinism=False)
+    except Exception as e:   # pylint: disable=broad-except
+      hits = [('C14/raises/driver/%s' % msg_key(e), 'running a chain step raises %s: %s' % (type(e).__name__, str(e)[:160]))]
+      res = dict(exc=e)
+    steps += 1
+    if hits:
+      return dict(hits=hits, case=dict(spec=s, expr=expr, pop=parents, seed=seed), steps=steps, generation=g)
+    if res.get('exc') is not None: continue
+    kids = [sdna_of(s, c) for c in res.get('news', [])]
+    kids = [k for k in kids if k is not None]
+    if is_mut:
+      if kids: pop = [['d', 0, kids[0], pop[0][3]]]
+    else:
+      for k in kids[:2]:
+        pop[rng.randrange(len(pop))] = ['d', 0, k, rng.randint(0, 8) / 4.0]
+      pop = [['d', i, x[2], x[3]] for i, x in enumerate(pop)]
+  return dict(hits=[], case=None, steps=steps, generation=None)
+
+CHAIN_OPS = [P([1, [0, NW_ALL]]), P([1, [1, NW_ALL]]), P([2, [0, 0, [0], 0]]), P([2, [0, 1, [1, 1], 1]]), P([2, [1, 2]])]
+def chain_search(ctx, rng, specs, ops, nseeds, gens, label):
+  import os
+  jobs = [dict(spec=s, expr=e, seed=rng.randint(0, 10 ** 6), gens=gens) for s in specs for e in ops for _ in range(nseeds)]
+  found = []
+  steps = 0
+  for j, r in zip(jobs, run_jobs(chain_job, jobs, min(12, os.cpu_count() or 1))):
+    steps += r['steps']
+    if r['hits']: found.append(r)
+  seen = set()
+  for r in found:
+    for sig, what in r['hits']:
+      if sig in seen: continue
+      seen.add(sig)
+      case = shrink_case(r['case'], sig)
+      ctx.hit(sig, what + ' [found by the chained search after %d generations; shrunk]' % r['generation'], case)
+  ctx.extra.setdefault('chain_search', []).append(dict(label=label, lineages=len(jobs), generations_each=gens, steps=steps, failing_lineages=len(found)))
+  return found
+
+def shrink_case(case, sig):
+  """Greedy shrinking of a failing case, keeping the signature: fewer parents, fewer top-level elements of the specification
+  (with the corresponding decisions of every parent)."""
+  def fails(c):
+    try:
+      return any(h[0] == sig for h in oracle(c['spec'], c['expr'], c['pop'], c['seed'], determinism=sig.startswith('C14/nondeterministic')))
+    except Exception:   # pylint: disable=broad-except
+      return False
+  cur = dict(case)
+  changed = True
+  while changed:
+    changed = False
+    for i in range(len(cur['pop'])):
+      if len(cur['pop']) <= 1: break
+      c = dict(cur, pop=[[x[0], n, x[2], x[3]] for n, x in enumerate(cur['pop'][:i] + cur['pop'][i + 1:])])
+      if fails(c): cur = c; changed = True; break
+    if changed: continue
+    els = cur['spec'][1]
+    for i in range(len(els)):
+      if len(els) <= 1: break
+      c = dict(cur, spec=('S', list(els[:i]) + list(els[i + 1:])), pop=[[x[0], x[1], list(x[2][:i]) + list(x[2][i + 1:]), x[3]] for x in cur['pop']])
+      if fails(c): cur = c; changed = True; break
+  return cur
 
 def process_case(c):
   """One case in a worker process: run the implementation with the recorder, evaluate the oracle.  Never raises:
